@@ -129,9 +129,10 @@ Definition store_del (n : name) (w : world) : world :=
 Definition store_put (n : name) (c : cert) (w : world) : world :=
   set_store (store_del n w) (w_store (store_del n w) ++ [(n, c)]).
 
-(** cacheAlmostFull: capacity > 0 && size >= capacity * 0.9 *)
+(** cacheAlmostFull: capacity > 0 && size >= capacity * 0.9 (the factor, as a fraction, is read
+    from the source by the translator) *)
 Definition almost_full (w : world) : bool :=
-  (0 <? w_cap w)%nat && (9 * w_cap w <=? 10 * length (w_cache w))%nat.
+  (0 <? w_cap w)%nat && (hs_almost_full_num * w_cap w <=? hs_almost_full_den * length (w_cache w))%nat.
 
 (** the wildcard variant tried by loadCertFromStorage: first label replaced by "*" *)
 Definition c_star : N := 42.
@@ -156,14 +157,14 @@ Inductive effect :=
 (** value returned by the maintenance functions: (Certificate, error) *)
 Inductive mres :=
 | MCert (c : cert)       (* certificate, nil *)
-| MEmpty                 (* Certificate{}, nil *)
 | MErr                   (* Certificate{}, error *)
 | MCertErr (c : cert).   (* certificate, error *)
 
 (** result of GetCertificate *)
 Inductive result :=
 | RCert (id : N)
-| REmpty                 (* empty certificate, nil error *)
+| REmpty                 (* empty certificate, nil error: never produced by the model (only decoded
+                            from an observation of the implementation) *)
 | RErr (k : N).          (* 1 name error, 2 not allowed, 3 no certificate, 4 obtain/renew failed *)
 
 Record hello := Hello {
@@ -186,9 +187,10 @@ Definition with_ari (d : bool) (x : cert) : cert :=
 Definition fresh_cert (w : world) (n : name) : cert :=
   Cert (w_fresh w) [n] true false false false false None.
 
-(** effects that can be observed from outside the process *)
+(** effects that can be observed from outside the process (a self-wait: the harness sees the
+    handshake goroutine in the waiting select with nobody left to release it) *)
 Definition observable (e : effect) : bool :=
-  match e with EAllow _ _ | EEvict _ | ESelfWait _ => false | _ => true end.
+  match e with EAllow _ _ | EEvict _ => false | _ => true end.
 
 
 Section WithSpace.
@@ -330,7 +332,11 @@ Section WithSpace.
       (e, ka ++ k, r, w').
   End Knot.
 
-  (** loadCertFromStorage: exact name, then the wildcard variant; maintenance errors are only logged *)
+  (** loadCertFromStorage: exact name, then the wildcard variant.  Result: None = nothing to load
+      (an error); Some (MCert x) = certificate x, nil (a maintenance error that still yields a
+      certificate is only logged); Some MErr = a certificate was loaded but its maintenance failed
+      without yielding one: an error wrapping errMaintainingLoadedCert [fix 781aee7], after which
+      getCertDuringHandshake does not go on to obtain [fix 5058ec2]. *)
   Fixpoint load_and_maintain (fuel : nat) (w : world) (h : hello) (n : name) (held : bool)
     : out (option mres) :=
     match fuel with
@@ -352,14 +358,14 @@ Section WithSpace.
             let w0 := if h_vanish h && negb held then store_del key w else w in   (* once: not after an obtain *)
             let '(e, k, r, w') := maintenance (load_and_maintain f) (cache_add c w0) h c held in
             (le ++ e, k,
-             Some (match r with MCert x => MCert x | MCertErr x => MCert x | _ => MEmpty end), w')
+             Some (match r with MCert x => MCert x | MCertErr x => MCert x | MErr => MErr end), w')
         end
     end.
 
   Definition fuel0 : nat := 4.
 
   Definition res_of (m : mres) : result :=
-    match m with MCert x => RCert (c_id x) | MEmpty => REmpty | _ => RErr 4 end.
+    match m with MCert x => RCert (c_id x) | _ => RErr 4 end.
 
   (** getCertDuringHandshake as the only handshake in flight. [load] = loadOrObtainIfNecessary. *)
   Definition get_cert (fuel : nat) (w : world) (h : hello) (load : bool) : out result :=
@@ -371,7 +377,6 @@ Section WithSpace.
           let '(e, k, r, w') := maintenance (load_and_maintain fuel) w h c false in
           (e, k, match r with
                  | MCert x => RCert (c_id x)
-                 | MEmpty => REmpty
                  | _ => if c_expired c then RErr 4 else RCert (c_id c)
                  end, w')
         else ([], [], RCert (c_id c), w)
@@ -384,7 +389,10 @@ Section WithSpace.
             else if (od_on w1 || almost_full w1) && load then
               let '(e, k, r, w2) := load_and_maintain (S fuel) w1 h n false in
               match r with
-              | Some m => (ge ++ e, k, res_of m, w2)
+              | Some m =>
+                  (* a certificate, or the maintenance of the loaded certificate failed: then no
+                     obtain (the bundle is in storage), the handshake fails *)
+                  (ge ++ e, k, res_of m, w2)
               | None =>
                   if od_on w2 then
                     let '(e2, k2, m, w3) := obtain_on_demand (load_and_maintain fuel) w2 h n in
